@@ -112,6 +112,55 @@ def inst(o, tmpl):
     return out
 
 
+def umap_templates(u, what):
+    """operation templates on a `Map<Key, (), N>` register (`u0`): the zero-sized-value shape."""
+    t = []
+    for c in u:
+        if "insert" in what:
+            t += [f"u0 insert {{k{c}}} 0#0", f"u0 insert_key_value {{k{c}}} 0#0", f"u0 checked_insert {{k{c}}} 0#0"]
+        if "lookup" in what:
+            for p in (f"q:{c}#0", f"k:{c}#0"):
+                t += [f"u0 get {p}", f"u0 get_key_value {p}", f"u0 get_mut {p} 1", f"u0 contains_key {p}",
+                      f"u0 index {p}", f"u0 index_mut {p} 1"]
+        if "remove" in what:
+            t += [f"u0 remove q:{c}#0", f"u0 remove_entry k:{c}#0"]
+        if "entry" in what:
+            t += [f"u0 entry {{k{c}}} [1] oi:0#0", f"u0 entry {{k{c}}} [] oiw:0#0", f"u0 entry {{k{c}}} [1,1] oiwk:0#0",
+                  f"u0 entry {{k{c}}} [] o.get", f"u0 entry {{k{c}}} [] o.get_mut:1", f"u0 entry {{k{c}}} [] o.into_mut",
+                  f"u0 entry {{k{c}}} [] o.insert:0#0", f"u0 entry {{k{c}}} [] o.remove", f"u0 entry {{k{c}}} [] o.remove_entry",
+                  f"u0 entry {{k{c}}} [] o.key", f"u0 entry {{k{c}}} [] v.insert:0#0", f"u0 entry {{k{c}}} [] v.key",
+                  f"u0 entry {{k{c}}} [] v.into_key", f"u0 entry {{k{c}}} [] key", f"u0 entry {{k{c}}} [] drop"]
+    if "bulk" in what:
+        t += [f"u0 retain {m} 0" for m in (0, 5, 10, 15)] + ["u0 clear", "u0 len", "u0 is_empty", "u0 capacity"]
+    if "iter" in what:
+        t += [f"u0 iter {k} 0 {sc}" for k in ("iter", "keys", "values", "iter_mut", "values_mut")
+              for sc in ("lhnlhnlhnlhncl", "nxnn", "nnnnnc", "dDndD")]
+    if "fmt" in what:
+        t += ["u0 fmt debug", "u0 fmt debug#"]          # not `{:30?}`: `()` itself honours the width
+    return t
+
+
+def umap_product(o, n, what, full_only=False):
+    """every layout of a `Map<Key, (), N>` x every template, followed by observations through
+    both views of the register (the map API and the `Set` API)."""
+    for nn in range(0, n + 1):
+        u = list(range(nn + 1))
+        for lay in layouts(nn, u):
+            if full_only and len(lay) < nn - 1:
+                continue
+            for tmpl in umap_templates(u, what):
+                o.case(s0=nn, s1=nn, tag="z")
+                for c in lay:
+                    o.op(f"u0 insert {o.k(c)} 0#0")
+                o.op(inst(o, tmpl), test=True)
+                o.op("u0 len")
+                o.op("u0 iter values 0 lnnnnl")
+                o.op("s0 iter lnnnnl")
+                for c in u:
+                    o.op(f"u0 get_key_value q:{c}#0")
+                o.end()
+
+
 def product_map(o, n, templates_fn, u=None, suffix=None, eq="lawful", removal_variants=True,
                 m1=None, layouts_filter=None):
     u = u if u is not None else list(range(n + 1))
@@ -250,6 +299,7 @@ def gen_C01(o, rng, tier):
         random_map_seq(o, rng, nn, rng.randint(10, 60), list(range(nn + 2)), with_iters=False,
                        with_forget=False)
         o.end()
+    umap_product(o, 2, {'insert', 'lookup', 'remove', 'bulk'})
 
 
 def gen_C02(o, rng, tier):
@@ -349,6 +399,7 @@ def gen_C03(o, rng, tier):
     o.op("m0 with_capacity 3")
     o.op("m0 with_capacity 4")
     o.end()
+    umap_product(o, 2, {'insert', 'entry'}, full_only=True)
 
 
 def gen_C04_phase1(o, rng, tier):
@@ -502,6 +553,7 @@ def gen_C05(o, rng, tier):
             o.op(f"{r} len")
             o.op(f"{r} iter iter 0 lnnnnnnnl")
         o.end()
+    umap_product(o, 2, {'insert', 'remove', 'entry', 'bulk'})
 
 
 def gen_C06(o, rng, tier):
@@ -542,6 +594,7 @@ def gen_C06(o, rng, tier):
                 o.op("s0 sub s1 s1")
                 o.op("s0 clone s1")
                 o.end()
+    umap_product(o, 2, {'insert', 'lookup', 'entry', 'iter', 'fmt'})
 
 
 def set_ops_basic(reg, u):
@@ -633,6 +686,7 @@ def gen_C09(o, rng, tier):
                     o.op(f"s0 iter {'n' * k}c{'n' * (len(lay) - k + 1)}", test=True)
                     o.op(f"s0 iter {'n' * k}x", test=True)
                 o.end()
+    umap_product(o, 2 if tier == 'quick' else 3, {'iter'})
 
 
 def gen_C10(o, rng, tier):
@@ -689,6 +743,7 @@ def gen_C11(o, rng, tier):
                 o.op(inst_fin(o, tmpl), test=True)
                 suffix(o, u, lay)
                 o.end()
+    umap_product(o, 2, {'entry'})
 
 
 def gen_C12(o, rng, tier):
@@ -722,6 +777,7 @@ def gen_C12(o, rng, tier):
                         o.op(f"s0 get q:{d}#0")
                     o.op("s0 iter nnnnn")
                     o.end()
+    umap_product(o, 2, {'insert', 'lookup', 'remove', 'entry'})
 
 
 def gen_C13(o, rng, tier, unchecked=False, eq="lawful"):
@@ -946,6 +1002,7 @@ def gen_C19(o, rng, tier):
                         build_map(o, "m0", lay, via_removal=variant)
                         o.op(op, test=True)
                         o.end()
+    umap_product(o, 2, {'fmt', 'iter'})
 
 
 def gen_C20(o, rng, tier):
